@@ -101,6 +101,17 @@ impl Sweep {
             },
             embed: false,
         });
+        // character references (which decode to a different character than the source holds) and
+        // inline spans whose delimiters are longer than one character
+        fams.push(Family {
+            name: "G1/markdown-entities-and-spans".into(),
+            fes: fe_idx(&fes, |f| f.name == "markdown" || f.name == "comment:rust"),
+            generator: Gen::Strings {
+                atoms: strs(&["a", " ", "&lt;", "&nbsp;", "&#8212;", "&eacute;", "`", "``", "$", "$$", "\n\n", "é"]),
+                max_len: t.pick(4, 5),
+            },
+            embed: true,
+        });
         let md = fe_idx(&fes, |f| {
             f.class == Class::Markdown || f.class == Class::GitCommit
         });
@@ -176,6 +187,7 @@ impl Sweep {
                 deletions: t == Tier::Thorough,
                 ends: t.pick(strs(&["", " "]), strs(&["", " ", ".", ",", "?", "\n", "\n\n"])),
                 second_order: t == Tier::Thorough,
+                ws_variants: t.pick(strs(&[" \n"]), strs(&[" \n", "\n ", "\t", "  ", " \n\n"])),
             },
         ));
         let prose_q: Vec<usize> = fe_idx(&fes, |f| {
